@@ -34,6 +34,9 @@ def instances(tier):
         out.append({"gen": g, "call": "zone_damper", "vary": "zone_number"})
         out.append({"gen": g, "call": "zone_temp", "vary": "zone_number"})
         out.append({"gen": g, "call": "ac_timer_clear", "vary": "ac_number"})
+    # AT5 zone set-points beyond what the protocol field can carry (10.0 .. 35.0 degC): whatever the client does with such a
+    # request, it must not transmit a frame that means a different temperature
+    out.append({"gen": 5, "call": "zone_temp", "vary": "beyond_field"})
     return out
 
 
@@ -109,7 +112,11 @@ def scenario(ctx, p):
     elif call == "zone_temp":
         # zone set-points have no advertised limits: the admissible domain is what the protocol field can carry
         D = p.get("grid", 20)
-        j = ctx.int("j", 0, 60 * D) if g.n == 4 else ctx.int("j", 10 * D, 35 * D)
+        if vary == "beyond_field":
+            j = ctx.int("j", 0, 60 * D)
+            ctx.assume(sym_or(j < 10 * D, j > 35 * D))
+        else:
+            j = ctx.int("j", 0, 60 * D) if g.n == 4 else ctx.int("j", 10 * D, 35 * D)
         args["j"], args["D"] = j, D
         args["t"] = j / float(D)
     elif call == "ac_temp":
@@ -121,8 +128,9 @@ def scenario(ctx, p):
         members = list(A.AcTimerType)
         args["tt"] = members[ctx.choice("arg", 2)]
         mins = ctx.int("mins", 0, 3 * 1440 - 1)
-        args["mins"] = mins
-        args["value"] = shims.SxTimedelta.symbolic(mins * 60) if ctx.symbolic else datetime.timedelta(minutes=mins)
+        secs = ctx.int("secs", 0, 59)              # durations are not whole minutes in general
+        args["mins"], args["secs"] = mins, secs
+        args["value"] = shims.SxTimedelta.symbolic(mins * 60 + secs) if ctx.symbolic else datetime.timedelta(minutes=mins, seconds=secs)
     elif call == "ac_timer_time":
         members = list(A.AcTimerType)
         args["tt"] = members[ctx.choice("arg", 2)]
